@@ -20,7 +20,7 @@ from ..runner import Outcome, fail, open_features
 from ..strategies import Cfg, Ctx, draw_dataset, template_cond, chance, leaf
 from ..world import build_entities, FAULT, InjectedFault, snapshot
 from ..build import declare_vars, build_over, rows_of
-from ..qcheck import reference_rows, ident, show_rows, all_vars_selected, used_vars
+from ..qcheck import reference_rows, ident, show_rows, all_vars_selected, used_vars, case_features
 
 ID = "C04"
 TITLE = "A query's answer does not depend on what was evaluated before it"
@@ -197,6 +197,11 @@ def check(case) -> Outcome:
     if any(v.get("kw") for v in case["vars"]):
         classes.append("predicate_form_variable")
     feats = list(classes)
+    for spec in case["pool"]:
+        # shapes of open findings owned by other properties (excluded there and here, counted in evidence)
+        feats += [f for f in case_features(_spec_case(case, spec))
+                  if f in ("subquery_selects_predicate_form_var_under_disjunction", "empty_domain_under_disjunction")
+                  and f not in feats]
     try:
         V, conts = declare_vars(case, objs)
         conts_before = [list(map(id, c)) for c in conts]
